@@ -35,13 +35,14 @@ func runC19(a *Args) error {
 	prelude := "From NV Require Import Base C19_Model.\nOpen Scope N_scope.\n"
 	w := NewCaseWriter(a, "C19", prelude, "case", "run")
 	w.ShardSize = 400
-	w.Rule = "one case = one history on a fresh OCI layout (oci.Store in a temp dir, Repository from registry.NewRepository over a Fetch-logging wrapper of that store; the layout is re-opened with registry.NewOCIRepository at the end): up to 12 PushSignature calls over up to 3 subject artifacts and their one-field variants (size+1, other media type, other digest), envelopes of both media types (distinct random content, 0 B .. 1 MiB; some re-pushed), caller annotations (none, thumbprint, user keys, valid / invalid created), interleaved with foreign referrers pushed through oras (other artifact types, artifactType field vs config type, legacy artifact manifests with and without subject, indexes and docker manifests with subject, manifests reaching the subject only through a layer or the config, subjects differing in one field), hostile signature manifests (0 / 2 layers, declared blob sizes above the cap, negative or off by one, missing blobs, a manifest really above 4 MiB, a blob really above 32 MiB, JSON of the wrong shape, manifest JSON stored under a non-manifest media type), listings of every subject and variant and fetches of every listed manifest plus tampered descriptors (size +1, -1, above the cap, media type swapped, unknown digest, an envelope or the subject as manifest). non-trivial = at least two successful pushes, at least one foreign or hostile content and a non-empty listing; distinct = distinct operation sequences after interning"
+	w.Rule = "one case = one history on a fresh OCI layout (oci.Store in a temp dir, Repository from registry.NewRepository over a Fetch-logging wrapper of that store; the layout is re-opened with registry.NewOCIRepository at the end): up to 12 PushSignature calls over up to 3 subject artifacts and their one-field variants (size+1, other media type, other digest), envelopes of both media types (distinct random content, 0 B .. 1 MiB; some re-pushed), caller annotations (none, thumbprint, user keys, valid / invalid created), interleaved with foreign referrers pushed through oras (other artifact types, artifactType field vs config type, legacy artifact manifests with and without subject, indexes and docker manifests with subject, manifests reaching the subject only through a layer, the config or (legacy) the blobs while naming a subject that differs in one field or none), hostile signature manifests (0 / 2 layers, declared blob sizes above the cap, negative or off by one, missing blobs, a manifest really above 4 MiB, a blob really above 32 MiB, JSON of the wrong shape, manifest JSON stored under a non-manifest media type), listings of every subject and variant and fetches of every listed manifest plus tampered descriptors (size +1, -1, above the cap, media type swapped, unknown digest, an envelope or the subject as manifest). non-trivial = at least two successful pushes, at least one foreign or hostile content and a non-empty listing; distinct = distinct operation sequences after interning"
 	w.Assumptions = []string{
 		"sha256 is injective on the contents of a history (digest numbers stand for byte strings; fetched bytes are identified by their sha256)",
 		"the artifact manifest struct of registry/internal/artifactspec is mirrored field by field in the harness (same JSON tags) to ask encoding/json how a content reads as an artifact manifest",
 		"oras-go v2.5.0 oci.Store / graph.Memory / content.FetchAll / PackManifest behave as modelled from their source (C19_Model.v header); every history checks it against the real store",
 		"error classes are recognised by errors.Is / errors.As and by the fixed message prefixes of registry/repository.go",
 		"no deletion and no concurrent writer during a history",
+		"extra Go-side check, outside registry/repository.go: the layout is re-opened with registry.NewOCIRepository and every listing compared with the live one; oras-go's oci.New refuses to re-open a layout in which a stored manifest is referenced (as a subject) with another size (histogram reopen: layout-not-reopenable): counted and reported, not judged a violation of C19",
 	}
 	n := 1200
 	if a.Tier == "thorough" {
